@@ -51,7 +51,7 @@ ASSUMPTIONS = [
 N_SLOTS = 3
 
 
-EXPECTED_PROBES = ['distance_fn_replaced_through_setter', 'receiver_constructed_with_its_own_distance_file', 'subgraph_poked_between_saves', 'labels_propagated_between_saves', 'non_float64_training_data', 'load_checked', 'load_of_save_made_after_a_failed_save', 'loaded_into_differently_constructed_model', 'matrix_pairs_run', 'original_refitted_after_save', 'original_used_between_saves', 'path_overwritten', 'prediction_raises_consistently', 'refit_raised', 'restart_checked_', 'save_raised_and_original_compared', 'save_returned_normally_although_fault_fired', 'scheduled_fault_did_not_fire', 'second_generation_load', 'successful_save_after_failed_save']
+EXPECTED_PROBES = ['model_constructed_from_a_distance_file', 'distance_file_of_the_model_rewritten', 'loaded_model_poked_and_compared', 'distance_fn_replaced_through_setter', 'receiver_constructed_with_its_own_distance_file', 'subgraph_poked_between_saves', 'labels_propagated_between_saves', 'non_float64_training_data', 'load_checked', 'load_of_save_made_after_a_failed_save', 'loaded_into_differently_constructed_model', 'matrix_pairs_run', 'original_refitted_after_save', 'original_used_between_saves', 'path_overwritten', 'prediction_raises_consistently', 'refit_raised', 'restart_checked_', 'save_raised_and_original_compared', 'save_returned_normally_although_fault_fired', 'scheduled_fault_did_not_fire', 'second_generation_load', 'successful_save_after_failed_save']
 
 SLOW_ARMS = ("restart", "matrix")
 
@@ -99,6 +99,8 @@ def gen_case(rng, arm, tier, k=0):
         base["pool"] = [p if p[0] != "row" else ["row", [float(int(abs(v)) % 4) for v in p[1]]] for p in base["pool"]]
         if "XU" in base:
             base["XU"] = small(base["XU"])
+    if base.get("pre") and rng.random() < 0.5:
+        base["pre_from_file"] = rng.choice(("plain", "replace"))
     n = len(base["X"])
     # second data set for "refit"
     base["X2"] = [list(r) for r in base["X"]]
@@ -134,6 +136,10 @@ def gen_case(rng, arm, tier, k=0):
             elif rng.random() < 0.15:
                 # the metric function is replaced through the public setter (name and function disagree)
                 ops.append(["set_fn", rng.randrange(47)])
+            elif base.get("pre_from_file") and rng.random() < 0.5:
+                ops.append(["rewrite_dfile"])  # the distance file the model was built from changes on disk
+            elif gens and rng.random() < 0.3:
+                ops.append(["poke_loaded", rng.randrange(gens), rng.choice(("create_arcs", "destroy_arcs", "calculate_pdf")), rng.randint(1, 4)])
             elif base["kind"] in ("unsup", "unsup_prop") and rng.random() < 0.4:
                 ops.append(["propagate"])
             else:
@@ -307,12 +313,14 @@ def run_case(case):
     scratch = tempfile.mkdtemp(prefix="verif-c19-", dir="/dev/shm" if os.path.isdir("/dev/shm") else None)
     try:
         try:
-            m, rows = lib_call("fit", c09.build_model, case, ood=lambda exc, site: True)
+            m, rows = lib_call("fit", c09.build_model, case, scratch, ood=lambda exc, site: True)
         except Stop:
             raise OutOfDomain()
         log = EventLog()
         if case.get("dtype", "float64") != "float64":
             bump(out.probes, "non_float64_training_data")
+        if case.get("pre") and case.get("pre_from_file"):
+            bump(out.probes, "model_constructed_from_a_distance_file")
         kind, metric = case["kind"], case["metric"]
         facts = dict(kind=kind, metric_class=metric_class(metric), pre=case["pre"])
         paths = [os.path.join(scratch, "slot%d.pkl" % i) for i in range(N_SLOTS)]
@@ -465,6 +473,48 @@ def run_case(case):
                 except Exception:  # noqa: BLE001 - consistently failing predictions are compared at the loads
                     pass
                 norm.append(("use",))
+            elif kop == "rewrite_dfile":
+                path = os.path.join(scratch, "model_distances.txt")
+                if not os.path.exists(path):
+                    continue
+                out.steps += 1
+                old = np.loadtxt(path, ndmin=2)
+                np.savetxt(path, old * 3.0 + 2.0, delimiter=" ")
+                bump(out.probes, "distance_file_of_the_model_rewritten")
+                norm.append(("rewrite_dfile",))
+            elif kop == "poke_loaded":
+                if not loaded:
+                    continue
+                obj, snap = loaded[op[1] % len(loaded)]
+                twin = copy.deepcopy(snap.model)
+                out.steps += 1
+                results = []
+                for target in (obj, twin):
+                    sg = target.subgraph
+                    try:
+                        if op[2] == "mark_nodes":
+                            sg.mark_nodes(op[3] % len(sg.nodes))
+                        elif op[2] == "destroy_arcs":
+                            sg.destroy_arcs()
+                        else:
+                            kk = max(1, min(op[3], len(sg.nodes) - 1))
+                            sg.create_arcs(kk, target.distance_fn, target.pre_computed_distance, target.pre_distances)
+                            if op[2] == "calculate_pdf":
+                                sg.calculate_pdf(kk, target.distance_fn, target.pre_computed_distance, target.pre_distances)
+                        results.append("ok")
+                    except Exception as exc:  # noqa: BLE001 - e.g. Subgraph has no create_arcs: both must agree
+                        results.append(type(exc).__name__)
+                if results[0] != results[1]:
+                    raise Stop(violation("loaded-behaves-differently", "subgraph.%s on a loaded model: %s, on the model it was saved from: %s" % (op[2], results[0], results[1]), **facts))
+                # (relevance flags are left out: the loaded object has been used for predictions
+                # since it was loaded, its reference copy has not)
+                st_a, st_b = model_state(obj, skip=("relevant",)), model_state(twin, skip=("relevant",))
+                if st_a != st_b:
+                    raise Stop(violation("loaded-behaves-differently", "after the same public call subgraph.%s the loaded model's state differs from the saved model's: %s" % (op[2], first_diff(st_b, st_a)), **facts))
+                # the generation now is "snapshot + poke": later checks compare predictions with that
+                loaded[op[1] % len(loaded)] = (obj, Snapshot(twin, snap.depth, snap.after_fault))
+                bump(out.probes, "loaded_model_poked_and_compared")
+                norm.append(("poke_loaded", op[2]))
             elif kop == "set_fn":
                 if case["pre"] or case.get("dtype", "float64") != "float64":
                     continue
